@@ -261,3 +261,110 @@ func walkerSiblings(r *fw.Run, rule string) {
 	}
 	r.Expect(rule, "walk methods that both walkers have", len(names), 31)
 }
+
+// walkerRereadsShrinkableLists: visitors are allowed to remove the directive they are called for from its node
+// (ast.Document.RemoveDirectiveFromNode — that is how @skip / @include are evaluated). The removal shifts the remaining
+// refs up *in place*. A walker loop written as `for _, i := range node.Directives.Refs` captured the slice header once:
+// after the removal the directive that moved up is never visited (with three directives the second @skip/@include is not
+// evaluated: the field stays in the operation although it is skipped — and nothing after normalization evaluates
+// @skip/@include). For every node kind that RemoveDirectiveFromNode can shrink, the Walker's loop over that kind's
+// Directives.Refs must re-read the list: it is not a range statement over the list.
+func walkerRereadsShrinkableLists(r *fw.Run, rule string) {
+	p := r.Prog
+	rm := p.Func("ast", "Document.RemoveDirectiveFromNode")
+	if rm == nil {
+		r.Error("%s: ast.Document.RemoveDirectiveFromNode not found", rule)
+		return
+	}
+	// the Document slices the removal shrinks: d.<Slice>[…].Directives.Refs passed to a delete helper / re-assigned
+	shrinkable := map[string]bool{}
+	rinfo := rm.Info()
+	fw.WalkAll(rm.Decl.Body, func(nd ast.Node) bool {
+		c, ok := nd.(*ast.CallExpr)
+		if !ok {
+			return true
+		}
+		for _, a := range c.Args {
+			u, isAddr := ast.Unparen(a).(*ast.UnaryExpr)
+			if !isAddr || u.Op.String() != "&" {
+				continue
+			}
+			if name := docSliceOfDirectiveRefs(rinfo, u.X); name != "" {
+				shrinkable[name] = true
+			}
+		}
+		return true
+	})
+	if len(shrinkable) < 3 {
+		r.Error("%s: the node kinds RemoveDirectiveFromNode shrinks were not recognised (%d)", rule, len(shrinkable))
+		return
+	}
+	n := 0
+	seen := map[string]bool{}
+	for _, fi := range p.Funcs("astvisitor") {
+		if fw.RecvName(recvTypeOrNil(fi.Obj)) != "Walker" {
+			continue
+		}
+		info := fi.Info()
+		fw.WalkAll(fi.Decl.Body, func(nd ast.Node) bool {
+			// every statement whose loop bound / range expression is a shrinkable list
+			var over ast.Expr
+			isRange := false
+			switch x := nd.(type) {
+			case *ast.RangeStmt:
+				over, isRange = x.X, true
+			case *ast.ForStmt:
+				if x.Cond != nil {
+					fw.WalkAll(x.Cond, func(m ast.Node) bool {
+						if c, ok := m.(*ast.CallExpr); ok && fw.Builtin(info, c) == "len" && len(c.Args) == 1 {
+							over = c.Args[0]
+						}
+						return true
+					})
+				}
+			}
+			if over == nil {
+				return true
+			}
+			name := docSliceOfDirectiveRefs(info, over)
+			if name == "" || !shrinkable[name] {
+				return true
+			}
+			n++
+			seen[name] = true
+			r.Check(!isRange, rule, "Walker/"+fi.Obj.Name()+"/re-reads:"+name+".Directives.Refs", p.Pos(nd.Pos()), "the Walker's loop over "+name+"[ref].Directives.Refs re-reads the list on every step (visitors may remove the directive they are called for)",
+				"the loop ranges over a slice header captured once while RemoveDirectiveFromNode shifts the remaining refs up in place: the directive that moves into the place of a removed one is never visited — `a @include(if: true) @skip(if: true) @audit` keeps the field although it is skipped, and normalization is not idempotent")
+			return true
+		})
+	}
+	for name := range shrinkable {
+		if !seen[name] {
+			r.Error("%s: no Walker loop over %s[ref].Directives.Refs found", rule, name)
+		}
+	}
+	r.Expect(rule, "Walker loops over directive lists that visitors may shrink", n, 3)
+}
+
+// docSliceOfDirectiveRefs: e is <doc>.<Slice>[…].Directives.Refs → Slice.
+func docSliceOfDirectiveRefs(info *types.Info, e ast.Expr) string {
+	s1, ok := ast.Unparen(e).(*ast.SelectorExpr)
+	if !ok || s1.Sel.Name != "Refs" {
+		return ""
+	}
+	s2, ok := ast.Unparen(s1.X).(*ast.SelectorExpr)
+	if !ok || s2.Sel.Name != "Directives" {
+		return ""
+	}
+	ix, ok := ast.Unparen(s2.X).(*ast.IndexExpr)
+	if !ok {
+		return ""
+	}
+	fv, sel := fw.Field(info, ix.X)
+	if fv == nil {
+		return ""
+	}
+	if tv, okT := info.Types[sel.X]; !okT || !fw.TypeIs(tv.Type, "ast", "Document") {
+		return ""
+	}
+	return fv.Name()
+}
